@@ -503,6 +503,9 @@ func (e *env) genOp(r *core.Rng, root reflect.Value) opRec {
 					meths = meths[1:] // reverse duplicates such elements (known finding C13-ptr-element-slot-alias)
 				}
 				m := core.Pick(r, meths)
+				if strings.HasPrefix(m, ".copyWithin") && aliasesContainers(et) {
+					m = ".pop()"
+				}
 				return opRec{Kind: "arraymeth", JS: l.js + m, Path: l.js, LitKind: methTag(m)}
 			}
 			lits := func(n int) string {
@@ -546,6 +549,9 @@ func (e *env) genOp(r *core.Rng, root reflect.Value) opRec {
 			}
 			if !fixedPtrSlot() && pickOp == 7 && slotAliased(et) {
 				pickOp = 1 // reverse duplicates such elements (known finding C13-ptr-element-slot-alias)
+			}
+			if pickOp == 10 && aliasesContainers(et) {
+				pickOp = 1 // copyWithin would duplicate slice headers of compound elements (see aliasesContainers)
 			}
 			switch pickOp {
 			case 0:
@@ -657,6 +663,12 @@ func (e *env) genOp(r *core.Rng, root reflect.Value) opRec {
 			}
 			src, ok2 := pick(func(m loc) bool { return m.t == l.t && len(m.steps) > 0 })
 			if !ok2 || e.writeExcluded(l, ls) {
+				continue
+			}
+			if aliasesContainers(l.t) {
+				// copying a slice header makes two locations of the Go value share one backing array of compound elements; the
+				// element wrappers reached through the two paths cannot know of each other (like Go-side re-slicing: outside the
+				// documented copy-on-change tracking)
 				continue
 			}
 			if r.Chance(1, 3) {
@@ -848,6 +860,26 @@ func sharesRef(val, root reflect.Value, steps []step) bool {
 				return false
 			}
 			cur = x.MapIndex(st.key)
+		}
+	}
+	return false
+}
+
+// aliasesContainers: copying a value of type t copies a slice header whose elements are compound values (directly or nested by value).
+func aliasesContainers(t reflect.Type) bool {
+	switch t.Kind() {
+	case reflect.Slice:
+		switch t.Elem().Kind() {
+		case reflect.Struct, reflect.Array, reflect.Slice:
+			return true
+		}
+	case reflect.Array:
+		return aliasesContainers(t.Elem())
+	case reflect.Struct:
+		for i := 0; i < t.NumField(); i++ {
+			if aliasesContainers(t.Field(i).Type) {
+				return true
+			}
 		}
 	}
 	return false
